@@ -30,7 +30,7 @@ Traces == JsonDeserialize(IOEnv.TRACE_FILE)
 VARIABLES tid, l
 
 NameKind(ps) == [k \in 1..Len(ps) |-> [name |-> ps[k].name, kind |-> ps[k].kind]]
-AnyDunder(ps) == \E k \in 1..Len(ps) : IsDunder(ps[k].name)
+AnyDunder(ps) == \E k \in 1..Len(ps) : IsDunder(ps[k].name) /\ ps[k].kind \notin {"VP", "VK"}
 NL == 10
 
 SigClauses(e) ==
